@@ -78,6 +78,16 @@ pub(crate) fn remove_all<Fd: AsFd>(dirfd: Fd, name: &Path) -> Result<(), Error> 
         })?;
     }
 
+    // "." and ".." do not name an entry of dirfd: unlinkat(2) refuses them but
+    // the O_DIRECTORY open below would happily recurse into dirfd itself or
+    // into its parent and delete their contents instead.
+    if matches!(name.as_os_str().as_bytes(), b"." | b"..") {
+        Err(ErrorImpl::InvalidArgument {
+            name: "path".into(),
+            description: "remove_all path cannot end with a '.' or '..' component".into(),
+        })?;
+    }
+
     // Fast path -- try to remove it with unlink/rmdir.
     if remove_inode(dirfd, name).ignore_enoent().is_ok() {
         return Ok(());
